@@ -129,7 +129,9 @@ Proof.
       match goal with |- context [upd _ ?x _] => pose proof (SU x) end; cbn [e_bc epc_ sp_bc] in *; lia.
   - (* EStGo: all workers are gone *)
     inversion H; subst s1 e'; clear H. specialize (IX eq_refl). unfold all_dead in IX.
-    unfold eff, qlen, pbc; proj. rewrite (sumf_wbc_dead _ IX). rewrite sumf_repeat0 by reflexivity.
+    destruct (do_start_fields2 n cn pg s) as (F1 & _ & _ & _ & F5 & F6 & _). fold c in F1, F5, F6.
+    unfold eff, qlen, pbc, set_exts. cbn [queue wks exts]. rewrite F1, F5, F6.
+    rewrite (sumf_wbc_dead _ IX). rewrite sumf_repeat0 by reflexivity.
     match goal with |- context [upd _ ?x _] => pose proof (SU x) end; cbn [e_bc epc_ sp_bc] in *; lia.
   - cbn [c repaired fStartOut] in H. inversion H; subst s1 e'; clear H; unfold eff, qlen, pbc; proj;
       match goal with |- context [upd _ ?x _] => pose proof (SU x) end; cbn [e_bc epc_ sp_bc] in *; lia.
@@ -166,23 +168,23 @@ Proof.
   intros x [[t|i] ch] x' I W H; unfold xstep in H; cbn [fst snd] in H.
   - destruct (step c (base x) (t, ch)) as [s'|] eqn:E; try discriminate.
     pose proof (step_eff _ _ _ _ I E) as F. inversion H; subst x'; clear H.
-    destruct (event (base x) t); unfold eff in F; cbn [base wts]; intros w Hw P.
-    + specialize (W w Hw P). destruct (wk_kind w); auto; lia.
+    destruct (event (base x) t); unfold eff in F; intros w Hw P; cbn [base wts] in *.
+    + specialize (W w Hw P). revert W. destruct (wk_kind w); intros W; auto; lia.
     + unfold wake_added in Hw. apply in_map_iff in Hw. destruct Hw as (w0 & <- & Hw0). specialize (W w0 Hw0).
       unfold parked_ok, qlen in *. destruct (wk_kind w0) eqn:K; destruct (wk_pc w0) eqn:Q; cbn [set_pc wk_pc wk_kind] in *;
-        try discriminate; try rewrite K in *; try rewrite F; auto.
+        try discriminate; try congruence; try rewrite K in *; try rewrite F; auto.
     + unfold wake_added in Hw. apply in_map_iff in Hw. destruct Hw as (w0 & <- & Hw0). specialize (W w0 Hw0).
       unfold parked_ok, qlen in *. destruct (wk_kind w0) eqn:K; destruct (wk_pc w0) eqn:Q; cbn [set_pc wk_pc wk_kind] in *;
-        try discriminate; try rewrite K in *; try rewrite F; auto.
-    + specialize (W w Hw P). destruct (wk_kind w); auto; lia.
+        try discriminate; try congruence; try rewrite K in *; try rewrite F; auto.
+    + specialize (W w Hw P). revert W. destruct (wk_kind w); intros W; auto; lia.
     + unfold wake_removed in Hw. apply in_map_iff in Hw. destruct Hw as (w0 & <- & Hw0). specialize (W w0 Hw0).
       unfold parked_ok in *. destruct (wk_kind w0) eqn:K; destruct (wk_pc w0) eqn:Q; cbn [set_pc wk_pc wk_kind] in *;
-        try discriminate; try rewrite K in *; auto; specialize (W eq_refl); lia.
+        try discriminate; try congruence; try rewrite K in *; auto; specialize (W eq_refl); lia.
   - destruct (nth_error (wts x) i) as [w0|] eqn:Hi; try discriminate.
     assert (G: forall w1 pk, (wk_pc w1 = WParked -> wk_kind w1 = wk_kind w0 /\ on_queue (wk_kind w0) = true /\ wcond (wk_kind w0) (base x) = false) ->
                WInv (mkX (base x) (upd i w1 (wts x)) pk)).
     { intros w1 pk Q w Hw P. cbn [base wts] in *. apply in_upd in Hw. destruct Hw as [->|Hw]; [|apply W; auto].
-      destruct (Q P) as (K & O & C). unfold parked_ok. intros _. rewrite K. unfold wcond, qlen in *.
+      destruct (Q P) as (K & O & C). rewrite K. unfold wcond, qlen in *.
       destruct (wk_kind w0); try discriminate.
       - apply Nat.ltb_ge in C. auto.
       - apply Nat.ltb_ge in C. auto. }
@@ -198,7 +200,8 @@ Proof. intros scripts kinds w Hw P. unfold xinit in Hw. cbn [wts] in Hw. apply i
 Lemma winv_run : forall sch x, Inv c (base x) -> WInv x -> Inv c (base (xrun false c sch x)) /\ WInv (xrun false c sch x).
 Proof.
   induction sch as [|a sch IH]; intros x I W; [split; auto|].
-  unfold xrun. cbn [fold_left]. unfold xstep' at 2. destruct (xstep false c x a) as [x'|] eqn:E; [|apply IH; auto].
+  change (xrun false c (a :: sch) x) with (xrun false c sch (xstep' false c x a)).
+  unfold xstep'. destruct (xstep false c x a) as [x'|] eqn:E; [|apply IH; auto].
   apply IH.
   - destruct a as [[t|i] ch].
     + apply xstep_B_base in E. eapply (inv_step c); eauto.
